@@ -649,13 +649,24 @@ pub fn schedule() -> BoxedStrategy<Schedule> {
     |(mut ov, hs, lifo)| {
       ov.sort();
       ov.dedup_by_key(|x| x.0);
-      Schedule { overrides: ov, walk: None, hash_seed: hs, notify_lifo: lifo, spurious: false }
+      Schedule { overrides: ov, walk: None, hash_seed: hs, notify_lifo: lifo, spurious: false, pct: None }
     },
   );
   let dense = (any::<u64>(), prop::sample::select(vec![10u8, 25, 50]), 0u64..4, any::<bool>(), prop::bool::weighted(0.25)).prop_map(
-    |(seed, pct, hs, lifo, spurious)| Schedule { overrides: vec![], walk: Some((seed | 1, pct)), hash_seed: hs, notify_lifo: lifo, spurious },
+    |(seed, pct, hs, lifo, spurious)| Schedule { overrides: vec![], walk: Some((seed | 1, pct)), hash_seed: hs, notify_lifo: lifo, spurious, pct: None },
   );
-  prop_oneof![2 => sparse, 3 => dense].boxed()
+  // PCT: random thread priorities with d-1 priority change points among ~k choice points
+  let pct = (any::<u64>(), 1u8..=3, prop::sample::select(vec![20u16, 60, 150]), 0u64..4, any::<bool>()).prop_map(
+    |(seed, d, k, hs, lifo)| Schedule {
+      overrides: vec![],
+      walk: None,
+      hash_seed: hs,
+      notify_lifo: lifo,
+      spurious: false,
+      pct: Some((seed | 1, d, k)),
+    },
+  );
+  prop_oneof![2 => sparse, 3 => dense, 2 => pct].boxed()
 }
 
 pub fn hash_only_schedule() -> BoxedStrategy<Schedule> {
